@@ -52,6 +52,12 @@ struct Shared {
     next_serial: u32,
     /// times an upstream cut a connection inside the second of two pipelined replies
     glued: u32,
+    /// C14 on the byte strings that flow: (kind, detail, query)
+    codec_findings: Vec<(String, String, usize)>,
+    codec_checked: [u64; 2],
+    truncated_with_records: u32,
+    /// hostile upstream replies as sent, per question
+    hostile_sent: HashMap<(String, u16, u16), Vec<Vec<u8>>>,
 }
 
 type Sh = Arc<Mutex<Shared>>;
@@ -178,6 +184,8 @@ async fn upstream_udp(k: Arc<Kernel>, plan: Arc<PlanB>, sh: Sh, ui: usize, mut r
                     bytes = encode(&stub, false);
                     as_sent = false;
                 }
+                own_dns_roundtrip(&sh, &bytes, qi, "upstream reply");
+                note_if_hostile_key(&plan, &sh, qi, &bytes);
                 let handed = k.now_ns();
                 if as_sent {
                     let mut s = sh.lock().unwrap();
@@ -216,13 +224,44 @@ async fn upstream_udp(k: Arc<Kernel>, plan: Arc<PlanB>, sh: Sh, ui: usize, mut r
             }
             UpBehaviour::WrongId => reply_now(5, true, false, false),
             UpBehaviour::Tc => reply_now(5, false, false, true),
+            UpBehaviour::TcPartial { keep } => {
+                let (k, sh, plan) = (k.clone(), sh.clone(), plan.clone());
+                let (src, dst, q, id, keep) = (u.dst, u.src, (qn.clone(), qt, qc), d.msg.id, *keep as usize);
+                tokio::spawn(async move {
+                    tokio::time::sleep(Duration::from_millis(5)).await;
+                    let serial = {
+                        let mut s = sh.lock().unwrap();
+                        s.next_serial += 1;
+                        s.next_serial
+                    };
+                    let spec = &plan.queries[qi];
+                    let msg = build_answer(&spec.ans, &q, serial, id);
+                    let mut cut = msg.clone();
+                    cut.flags |= F_TC;
+                    cut.answer.truncate(keep.max(1));
+                    cut.authority.clear();
+                    cut.additional.retain(|r| r.rtype == T_OPT);
+                    let bytes = encode(&cut, spec.ans.compress);
+                    own_dns_roundtrip(&sh, &bytes, qi, "truncated upstream reply");
+                    let handed = k.now_ns();
+                    {
+                        /* the records of the fragment belong to this (complete) reply */
+                        let mut s = sh.lock().unwrap();
+                        s.replies.push(UpReply { serial, qidx: qi, upstream: ui, tcp: false, msg, handed_ns: handed, handed_hi_ns: handed, as_sent_is_msg: true });
+                        s.truncated_with_records += 1;
+                    }
+                    k.inject_udp(dst, src, UP_IF, &bytes);
+                });
+            }
             UpBehaviour::Garbage => reply_now(5, false, true, false),
             UpBehaviour::Hostile { seed } => {
                 let (k2, src, dst, q, id, seed) = (k.clone(), u.dst, u.src, (qn.clone(), qt, qc), d.msg.id, *seed);
                 let spec_ans = spec.ans.clone();
+                let sh2 = sh.clone();
                 tokio::spawn(async move {
                     tokio::time::sleep(Duration::from_millis(5)).await;
                     let bytes = hostile_reply(seed, &spec_ans, &q, id);
+                    note_hostile(&sh2, &q, &bytes);
                     k2.inject_udp(dst, src, UP_IF, &bytes);
                 });
             }
@@ -235,6 +274,69 @@ async fn upstream_udp(k: Arc<Kernel>, plan: Arc<PlanB>, sh: Sh, ui: usize, mut r
             }
         }
     }
+}
+
+/// C14, first quantifier, on a byte string that flows through the simulation: if erbium's decoder
+/// accepts it as m, then decoding what erbium encodes m to gives m again.
+fn own_dns_roundtrip(sh: &Sh, bytes: &[u8], qi: usize, what: &str) {
+    use erbium::dns::parse::PktParser;
+    let before = crate::common::PANICS.lock().map(|p| p.len()).unwrap_or(0);
+    let r = std::panic::catch_unwind(|| match PktParser::new(bytes).get_dns() {
+        Err(_) => None,
+        Ok(m) => {
+            let again = m.serialise();
+            Some(match PktParser::new(&again).get_dns() {
+                Ok(m2) if m2 == m => Ok(()),
+                Ok(m2) => Err(format!("{} {} is accepted as {:?}; re-encoded as {} it decodes as {:?}", what, hex(&bytes[..bytes.len().min(600)]), m, hex(&again[..again.len().min(600)]), m2)),
+                Err(e) => Err(format!("{} {} is accepted; re-encoded as {} it does not decode: {}", what, hex(&bytes[..bytes.len().min(600)]), hex(&again[..again.len().min(600)]), e)),
+            })
+        }
+    });
+    let mut g = sh.lock().unwrap();
+    match r {
+        Ok(None) => g.codec_checked[0] += 1,
+        Ok(Some(Ok(()))) => g.codec_checked[1] += 1,
+        Ok(Some(Err(e))) => g.codec_findings.push(("C14.accepted_message_changed_by_encode_decode".into(), e, qi)),
+        Err(_) => {
+            /* the panic belongs to this oracle's call into the codec, not to the running server */
+            let mine: Vec<(String, String)> = crate::common::PANICS
+                .lock()
+                .map(|mut p| {
+                    let at = before.min(p.len());
+                    p.split_off(at)
+                })
+                .unwrap_or_default();
+            let (loc, msg) = mine.first().cloned().unwrap_or_default();
+            g.codec_findings.push((format!("C14.codec_panic_on_accepted_message@{}", loc), format!("decoding {} {} and encoding the result panics: {}", what, hex(&bytes[..bytes.len().min(600)]), msg), qi));
+        }
+    }
+}
+
+/// Remember a hostile reply as sent (all but the id, which differs per transmission).
+fn note_hostile(sh: &Sh, q: &(Name, u16, u16), bytes: &[u8]) {
+    own_dns_roundtrip(sh, bytes, 0, "hostile upstream reply");
+    note_sent(sh, q, bytes);
+}
+
+/// A well-behaved reply for a question that also draws hostile replies is a candidate too.
+fn note_if_hostile_key(plan: &PlanB, sh: &Sh, qi: usize, bytes: &[u8]) {
+    let q = &plan.queries[qi];
+    if plan.queries.iter().any(|o| matches!(o.up, UpBehaviour::Hostile { .. }) && key_of(o) == key_of(q)) {
+        note_sent(sh, &(q.qname.clone(), q.qtype, q.qclass), bytes);
+    }
+}
+
+fn note_sent(sh: &Sh, q: &(Name, u16, u16), bytes: &[u8]) {
+    let mut g = sh.lock().unwrap();
+    let v = g.hostile_sent.entry((q.0.lower().to_text(), q.1, q.2)).or_default();
+    if !v.iter().any(|o| o.len() == bytes.len() && o.get(2..) == bytes.get(2..)) {
+        v.push(bytes.to_vec());
+    }
+}
+
+/// The records of a section as erbium's own decoder sees them, all but the TTLs.
+fn own_records_equal(a: &[erbium::dns::dnspkt::RR], b: &[erbium::dns::dnspkt::RR]) -> bool {
+    a.len() == b.len() && a.iter().zip(b).all(|(x, y)| x.domain == y.domain && x.class == y.class && x.rrtype == y.rrtype && x.rdata == y.rdata)
 }
 
 fn hostile_reply(seed: u64, ans: &AnsSpec, q: &(Name, u16, u16), id: u16) -> Vec<u8> {
@@ -317,6 +419,7 @@ async fn upstream_tcp_conn(k: Arc<Kernel>, plan: Arc<PlanB>, sh: Sh, ui: usize, 
         let mode = spec.up_tcp.clone();
         if let UpBehaviour::Hostile { seed } = &spec.up {
             let b = hostile_reply(*seed, &spec.ans, &(qn.clone(), qt, qc), d.msg.id);
+            note_hostile(&sh, &(qn.clone(), qt, qc), &b[..b.len().min(65535)]);
             let mut f = (b.len().min(65535) as u16).to_be_bytes().to_vec();
             f.extend_from_slice(&b[..b.len().min(65535)]);
             if s.write_all(&f).await.is_err() {
@@ -345,6 +448,10 @@ async fn upstream_tcp_conn(k: Arc<Kernel>, plan: Arc<PlanB>, sh: Sh, ui: usize, 
         };
         let msg = build_answer(&spec.ans, &(qn, qt, qc), serial, d.msg.id);
         let bytes = encode(&msg, spec.ans.compress);
+        if bytes.len() <= 65535 {
+            own_dns_roundtrip(&sh, &bytes, qi, "upstream reply over TCP");
+            note_if_hostile_key(&plan, &sh, qi, &bytes);
+        }
         if bytes.len() > 65535 {
             /* cannot be sent over DNS at all: answer SERVFAIL like a real server */
             let stub = Msg { id: d.msg.id, flags: F_QR | F_RD | F_RA | 2, question: msg.question.clone(), ..Default::default() };
@@ -767,6 +874,7 @@ pub async fn run_async(plan: Arc<PlanB>, opts: &ExecB) -> RunResult {
             }
         }
         let bytes = client_query_bytes(&plan, qi, &cookies);
+        own_dns_roundtrip(&sh, &bytes, qi, "client query");
         sent_at_ns[qi] = kernel.now_ns();
         if let Some((gid, mode)) = q.conn {
             let members: Vec<usize> = (0..nq).filter(|i| matches!(plan.queries[*i].conn, Some((g, _)) if g == gid)).collect();
@@ -831,6 +939,15 @@ enum Expect {
 fn evaluate(plan: &PlanB, kernel: &Arc<Kernel>, sh: &Sh, sent_at_ns: &[u64], _end_ns: u64, res: &mut RunResult) {
     let outs = kernel.with(|k| k.out.clone());
     let g = sh.lock().unwrap();
+    for (kind, detail, qi) in &g.codec_findings {
+        res.violate("C14", kind, detail.clone(), *qi);
+    }
+    if g.codec_checked[0] > 0 {
+        res.probe("C14.flowing_message_refused_by_decoder");
+    }
+    if g.codec_checked[1] > 0 {
+        res.probe("C14.flowing_message_survives_encode_decode");
+    }
     for e in &g.bad_forwarded {
         res.violate("C04", "C04.malformed_query_sent_upstream", e.clone(), 0);
     }
@@ -856,6 +973,7 @@ fn evaluate(plan: &PlanB, kernel: &Arc<Kernel>, sh: &Sh, sent_at_ns: &[u64], _en
             UpBehaviour::Dup { .. } => Some("upstream.duplicate_reply"),
             UpBehaviour::WrongId => Some("upstream.wrong_id_reply"),
             UpBehaviour::Tc => Some("upstream.truncated_udp_reply"),
+            UpBehaviour::TcPartial { .. } => Some("upstream.truncated_udp_reply_with_records_while_tcp_fails"),
             UpBehaviour::Garbage => Some("upstream.garbage_reply"),
             UpBehaviour::Unreachable => Some("upstream.icmp_unreachable"),
             UpBehaviour::Hostile { .. } => Some("upstream.hostile_reply"),
@@ -894,6 +1012,44 @@ fn evaluate(plan: &PlanB, kernel: &Arc<Kernel>, sh: &Sh, sent_at_ns: &[u64], _en
     }
     if plan.eph_ports > 0 {
         *res.faults.entry("small_ephemeral_port_range".into()).or_insert(0) += 1;
+    }
+    // ---- C14: a hostile upstream reply that erbium's decoder accepted as m and that erbium relayed
+    // (at once, or later from its cache) must reach the client as bytes that decode to the same
+    // records; judged on every well-formed query whose question drew a hostile reply
+    for (qi, q) in plan.queries.iter().enumerate() {
+        use erbium::dns::dnspkt::DNSPkt;
+        use erbium::dns::parse::PktParser;
+        let Some(sent) = g.hostile_sent.get(&key_of(q)) else { continue };
+        if q.raw.is_some() {
+            continue;
+        }
+        let mut got: Vec<&Vec<u8>> = vec![];
+        if q.tcp {
+            got.extend(g.tcp_frames[qi].iter().map(|(_, f)| f));
+        } else {
+            for o in &outs {
+                if let OutKind::Udp { dst, data, .. } = &o.kind {
+                    if dst.ip() == q.src_ip && dst.port() == q.src_port && !o.injected && o.errno.is_none() {
+                        got.push(data);
+                    }
+                }
+            }
+        }
+        let accepted: Vec<DNSPkt> = sent.iter().filter_map(|b| PktParser::new(b).get_dns().ok()).collect();
+        for bytes in got {
+            let Ok(m2) = PktParser::new(bytes).get_dns() else { continue };
+            let empty = m2.answer.is_empty() && m2.nameserver.is_empty() && m2.additional.is_empty();
+            if m2.tc || empty || accepted.is_empty() {
+                continue;
+            }
+            res.probe("C14.hostile_reply_accepted_and_relayed");
+            let same = accepted.iter().any(|m1| own_records_equal(&m1.answer, &m2.answer) && own_records_equal(&m1.nameserver, &m2.nameserver) && own_records_equal(&m1.additional, &m2.additional));
+            if !same {
+                let show = |m: &DNSPkt| format!("answer [{}] authority [{}] additional [{}]", m.answer.iter().map(|r| r.to_string()).collect::<Vec<_>>().join(" | "), m.nameserver.iter().map(|r| r.to_string()).collect::<Vec<_>>().join(" | "), m.additional.iter().map(|r| r.to_string()).collect::<Vec<_>>().join(" | "));
+                let last = &sent[sent.len() - 1];
+                res.violate("C14", "C14.accepted_hostile_reply_changed_by_reencoding", format!("response to {}: erbium's decoder reads erbium's output as {} but none of the {} upstream replies for this question reads like that; the last one reads {} -- its bytes {}", q.qname.to_text(), show(&m2), accepted.len(), show(&accepted[accepted.len() - 1]), hex(&last[..last.len().min(300)])), qi);
+            }
+        }
     }
     for (qi, q) in plan.queries.iter().enumerate() {
         if q.raw.is_some() || q.flood {
@@ -997,7 +1153,7 @@ fn evaluate(plan: &PlanB, kernel: &Arc<Kernel>, sh: &Sh, sent_at_ns: &[u64], _en
              * against a black-holed or stalling upstream the k-th queued query waits k kernel
              * time-outs; whether that is still "bounded" the statement does not settle, so
              * liveness is judged only when at most three TCP-path queries can queue up */
-            let tcp_path = |o: &QuerySpec| o.tcp || matches!(o.up, UpBehaviour::WrongId | UpBehaviour::Tc);
+            let tcp_path = |o: &QuerySpec| o.tcp || matches!(o.up, UpBehaviour::WrongId | UpBehaviour::Tc | UpBehaviour::TcPartial { .. });
             let slow_tcp = plan.upstream_tcp.iter().any(|m| m == "blackhole") || plan.queries.iter().any(|o| tcp_path(o) && o.up_tcp == UpTcp::Stall);
             let liveness_judged = !slow_tcp || plan.queries.iter().filter(|o| tcp_path(o)).count() <= 3;
             if !liveness_judged {
@@ -1178,6 +1334,8 @@ fn evaluate(plan: &PlanB, kernel: &Arc<Kernel>, sh: &Sh, sent_at_ns: &[u64], _en
                     let rq = &plan.queries[rep.qidx];
                     if key_of(rq) != key_of(q) {
                         res.violate("C07", "C07.answer_to_another_question", format!("query {} for {} type {} was answered with upstream reply #{} to {} type {}", qi, q.qname.to_text(), q.qtype, rep.serial, rq.qname.to_text(), rq.qtype), qi);
+                        /* ... which is also not what any upstream said about this question */
+                        res.violate("C03", "C03.sections_taken_from_the_reply_to_another_question", format!("query {} for {} type {} class {} carries the records of upstream reply #{}, which answered {} type {} class {}", qi, q.qname.to_text(), q.qtype, q.qclass, rep.serial, rq.qname.to_text(), rq.qtype, rq.qclass), qi);
                         continue;
                     }
                     let from_cache = rep.handed_hi_ns < sent_at_ns[qi];
